@@ -648,6 +648,57 @@ def r06_timestamp_unpack(chk, facts):
                          '(nanoseconds << %d) | seconds: seconds above 2^%d are truncated or mixed with the nanoseconds' % (hex(m), sh, K, bin(m).count('1')), None, fn['q'])
     chk.require(n >= 1, 'msgpack parser: the split of the 64-bit timestamp word (mask and shift of one local) was not found')
 
+def r06_timestamp_sign(chk, facts):
+    """Negative time stamps: the encoder writes (truncated seconds, |remainder|); the decoder must take the remainder off again."""
+    from .. import cfg as C, guards as G
+    enc = [f for f in U.functions(facts, cls='basic_msgpack_encoder') if f.get('body') is not None]
+    abs_sites = 0
+    for fn in U.one_per_inst(enc):
+        ts_args = set(A.ref_name((c.get('args') or [None, None])[1]) for c in A.calls_in(fn['body']) if A.callee_name(c) == 'write_timestamp' and len(c.get('args') or []) == 2)
+        ts_args.discard(''); ts_args.discard(None)
+        if not ts_args: continue
+        g = C.CFG(fn['body'])
+        for nd in g.rpo:
+            if nd.kind != 'stmt' or not isinstance(nd.ast, dict): continue
+            x = A.strip(nd.ast)
+            if x is None or x.get('k') != 'BinaryOperator' or x.get('op') != '=' or A.ref_name(x.get('lhs')) not in ts_args: continue
+            r = A.strip(x.get('rhs'), casts=True)
+            if r is None or r.get('k') != 'UnaryOperator' or r.get('op') != '-' or A.ref_name(r.get('sub')) != A.ref_name(x.get('lhs')): continue
+            v = A.ref_name(x.get('lhs'))
+            if any((G.comparison(a) or (None,))[0] == '<' and A.ref_name(G.comparison(a)[1]) == v and A.const(G.comparison(a)[2]) == 0 and lab is True for a, lab, e in g.guards(nd)):
+                abs_sites += 1
+    if not abs_sites: return      # the encoder does not write |remainder|: nothing to mirror
+    n = 0
+    for fn in U.one_per_inst([f for f in U.functions(facts, cls='basic_msgpack_parser') if f.get('body') is not None]):
+        # accumulators built from a signed seconds count: `bigint nano(sec)` with sec of a signed integer type
+        accs = {}
+        for d in A.walk_no_lambda(fn['body']):
+            if d.get('k') != 'VarDecl' or d.get('init') is None or 'bigint' not in F.tname(fn, d.get('t')): continue
+            srcs = [y for y in A.walk(d['init']) if y.get('k') == 'DeclRefExpr' and y.get('dk') == 'Var']
+            if len(srcs) == 1 and F.tname(fn, srcs[0].get('t')).replace('const ', '').strip() in ('long', 'long long', 'int', 'int64_t', 'int32_t'):
+                accs[d['id']] = d
+        if not accs: continue
+        g = C.CFG(fn['body'])
+        chk.analysed(fn)
+        for aid, d in accs.items():
+            adds = []; subs = []
+            for nd in g.rpo:
+                if nd.kind != 'stmt' or not isinstance(nd.ast, dict): continue
+                for c in A.calls_in(nd.ast):
+                    if c.get('k') == 'CXXOperatorCallExpr' and c.get('oop') in ('+=', '-=') and (A.strip((c.get('args') or [None])[0], casts=True) or {}).get('id') == aid:
+                        sign = [lab for a, lab, e in g.guards(nd) if (G.comparison(a) or (None,))[0] == '<' and (A.strip(G.comparison(a)[1], casts=True) or {}).get('id') == aid and A.const(G.comparison(a)[2]) == 0]
+                        (adds if c['oop'] == '+=' else subs).append((nd, sign))
+            if not adds and not subs: continue
+            n += 1
+            site = U.site(fn, 'signed timestamp join `%s`' % d.get('n'))
+            ok = bool(adds) and bool(subs) and all(sg == [False] for nd, sg in adds) and all(sg == [True] for nd, sg in subs)
+            if ok: chk.ok('R06.msgpack', site, {'encoder_abs_sites': abs_sites, 'line': d.get('l')})
+            else:
+                chk.fail('R06.msgpack', site, fn['file'], (adds or subs)[0][0].line, 'timestamp 96: the encoder writes a negative time as (seconds truncated toward zero, |sub-second remainder|) '
+                         '(%d sites negate the remainder), so the decoder must subtract the nanoseconds when seconds*10^9 is negative and add them otherwise; here `%s` is '
+                         'combined with %d addition(s) under %s and %d subtraction(s) under %s' % (abs_sites, d.get('n'), len(adds), [sg for _, sg in adds], len(subs), [sg for _, sg in subs]), None, fn['q'])
+    chk.require(n >= 1, 'msgpack parser: the join of signed seconds and nanoseconds (timestamp 96) was not found')
+
 def run(chk, tier, only_rule=None):
     chk.explanation = EXPLANATION
     chk.not_decided = NOT_DECIDED
@@ -686,6 +737,7 @@ def ladders(chk, tier):
     r06_scalars_msgpack(chk, facts, rows)
     r06_timestamp(chk, facts)
     r06_timestamp_unpack(chk, facts)
+    r06_timestamp_sign(chk, facts)
     for fn in one('basic_msgpack_encoder', 'visit_begin_array', lambda f: len(f['params']) == 4):
         check_ladder(chk, 'R06.msgpack', facts, fn, 'length', 0, U64, lambda v, o: msgpack_decode(rows, v, o, 'array'))
     for fn in one('basic_msgpack_encoder', 'visit_begin_object', lambda f: len(f['params']) == 4):
